@@ -251,6 +251,13 @@ func explore(c *vt.Ctx, p conc.Program, seq map[string]bool, maxPre, maxExec int
 	n, complete := exploreProg(p, maxPre, maxExec, func(res *conc.Result) bool {
 		c.Eval(1)
 		c.Label("verdict:" + res.Verdict.Kind)
+		if res.Verdict.Kind == "deadlock" && first == nil {
+			// calls that never return have no results: no sequential ordering explains that
+			first = vt.Dev("prop", "C06", "fs", p.FS, "ops", p.Kinds(), "verdict", "deadlock:"+res.Verdict.Shape)
+			first.Detail = fmt.Sprintf("%s: the calls do not return under schedule %v: %s", p, res.Verdict.Trace, res.Verdict.Detail)
+			firstTrace = res.Verdict.Trace
+			return false
+		}
 		if res.Verdict.Kind != "ok" {
 			return true
 		}
